@@ -16,6 +16,8 @@ Definition ents_eqb := list_eqb ent_eqb.
 (* the hypothesis of the theorems (Pkgproof.WFd, as the boolean Package.WFdb) holds of the model's state but not of the implementation's *)
 Definition wf_lost (fsm : cfs) (dm : cdoc) (fs' : cfs) (d' : cdoc) : bool := cWFdb fsm dm && negb (cWFdb fs' d').
 Definition is_nil_parts (d : cdoc) : bool := match parts _ (cont _ _ d) with [] => true | _ => false end.
+Definition case10 := (cfs * cdoc * cdoc * cop * cfs * cdoc * cdoc * out cbytes)%type.
+Definition has_twin (d : cdoc) : bool := negb (is_nil_parts d).
 
 (* C04.  1: PkgOK lost (the model keeps it)   2: saved zip has not the required shape   3: manifest entry list differs
    from the model's   4: result differs   5: duplicate dict keys (abstraction broken)   9: exact state differs (fidelity) *)
@@ -99,8 +101,6 @@ Definition chk11 (c : case) : nat :=
    1: the clone is not equal to the original at birth   2: cloning changed the original   3: the clone is not the model's clone
    4: an operation on one document changed the other (part map or bookkeeping)   5: abstraction   6: part map differs from the
    model's step   7: result differs   9: fidelity *)
-Definition case10 := (cfs * cdoc * cdoc * cop * cfs * cdoc * cdoc * out cbytes)%type.
-Definition has_twin (d : cdoc) : bool := negb (is_nil_parts d).
 Definition chk10 (c : case10) : nat :=
   let '(fs, d, tw, o, fs', d', tw', r) := c in
   let '((fsm, dm), rm) := cstep FIXED (fs, d) o in
@@ -117,6 +117,17 @@ Definition chk10 (c : case10) : nat :=
            else if wf_lost fsm dm fs' d' then 8
            else if view_eqb fs' d' fsm dm && out_eqb r rm && doc_eqb d' dm then 0 else 9   (* the step itself is C03's subject *)
        end.
+
+(* C04 with a twin (the other one of original / clone): as chk04 on the operated document, and
+   6: the operation on one document broke PkgOK of the other (state shared between clone and original) *)
+Definition chk04t (c : case10) : nat :=
+  let '(fs, d, tw, o, fs', d', tw', r) := c in
+  let k := chk04 (fs, d, o, fs', d', r) in
+  match k with
+  | O | 9%nat =>
+      if has_twin tw && negb (match o with OClone => true | _ => false end) && cPkgOKb fs tw && negb (cPkgOKb fs' tw') then 6%nat else k
+  | _ => k
+  end.
 
 (* which variant of the code does the implementation follow on this step? (diagnosis only) *)
 Definition agrees (fx : fixes) (c : case) : bool :=
